@@ -17,6 +17,8 @@ func TestCheck(t *testing.T) {
 	}
 	run := ev.Start("C16", "flags: one case = one monitored invocation (native method or system call or probe call chain) under one combination of call flags; distinct by (target, arguments, flags, outcome: HALT/FAULT + who wrote / notified / which contexts were entered with which flags); non-trivial when the target context was really entered. permissions: one case = (caller manifest, callee, method, call kind); distinct by the shape of the permission set against the callee; non-trivial when the call reached the permission check")
 	defer run.Finish()
+	reporter = &stageReporter{run: run, deferred: map[string]*deferredViolation{}, current: map[string]bool{}}
+	defer reporter.flush()
 	run.Assume("effects are observed through the exported per-instruction VM hook, the interop context's private store change set, its notification list and the invocation stack; these are trusted to reflect what a block execution would persist")
 	run.Assume("test invocations (Blockchain.GetTestVM) run the same interop / native code as block execution; a sample of permission cells is also executed in real blocks")
 	run.Assume("effects of a run that FAULTs or of a callee whose exception was caught are discarded by the engine and are counted, not judged")
@@ -29,9 +31,10 @@ func TestCheck(t *testing.T) {
 }
 
 func flagsPart(t *testing.T, run *ev.Run) {
+	run.Obs("discarded_effects_made_without_the_flag", 0)
 	stages := []string{"all"}
 	entry := []callflag.CallFlag{callflag.All}
-	depth3 := 3000
+	depth3 := 20000
 	if ev.Tier() == "thorough" {
 		stages = append(stages, stagesBefore()...)
 		depth3 = 60000
@@ -42,7 +45,7 @@ func flagsPart(t *testing.T, run *ev.Run) {
 		run.Note("setup_steps_failed_"+st, log.Failed)
 		run.Obs("setup_steps_ok", int64(len(log.OK)))
 		ef := entry
-		if ev.Tier() == "thorough" && st == "all" {
+		if ev.Tier() == "thorough" {
 			ef = nil
 			for f := callflag.CallFlag(0); f <= callflag.All; f++ {
 				ef = append(ef, f)
@@ -52,8 +55,8 @@ func flagsPart(t *testing.T, run *ev.Run) {
 		runSyscalls(run, v)
 		d3 := depth3
 		if st != "all" {
-			d3 /= 10
+			d3 /= 4
 		}
-		runChains(run, v, d3)
+		runChains(run, v, d3, ev.Tier() == "thorough")
 	}
 }
